@@ -563,15 +563,39 @@ impl Database {
         // wait for the update_watchers to release the key
         let (value, version) = {
             let mut db = self.map.write().unwrap();
-            match i32::from_str_radix(
-                &db.get(&key.to_string())
-                    .unwrap_or(&Value::from("0"))
-                    .to_string(),
-                10,
-            ) {
+            // A removed key (tombstone kept until the next snapshot) counts as absent
+            let old = db.get(&key.to_string()).map(|v| v.clone());
+            let current_str = match &old {
+                Some(v) if v.state != ValueStatus::Deleted => v.value.to_string(),
+                _ => String::from("0"),
+            };
+            match i32::from_str_radix(&current_str, 10) {
                 Ok(current) => {
-                    let next = (current + inc).to_string();
-                    db.insert(key.clone(), Value::from(next.clone()));
+                    let next = match current.checked_add(inc) {
+                        Some(next) => next.to_string(),
+                        None => {
+                            return Response::Error {
+                                msg: "Increment overflows the value".to_string(),
+                            }
+                        }
+                    };
+                    let new_value = match &old {
+                        // Keeps what the disk snapshot knows about the key and makes the version grow
+                        Some(old) => Value {
+                            value: next.clone(),
+                            version: if old.is_in_conflict_resolution() {
+                                old.version
+                            } else {
+                                old.version.saturating_add(1)
+                            },
+                            opp_id: Databases::next_op_log_id(),
+                            state: old.get_update_value_sate(),
+                            value_disk_addr: old.value_disk_addr,
+                            key_disk_addr: old.key_disk_addr,
+                        },
+                        None => Value::from(next.clone()),
+                    };
+                    db.insert(key.clone(), new_value);
                     (next, -1)
                 }
                 _ => {
